@@ -121,9 +121,10 @@ static char **mkvec(const char *spec, long *nout) {
     char *dup = strdup(spec + 1); size_t L = strlen(dup); if (L && dup[L - 1] == ']') dup[L - 1] = 0;
     char *save = NULL;
     for (char *tok = strtok_r(dup, ",", &save); tok; tok = strtok_r(NULL, ",", &save)) {
-        long rep = 1; char *star = strchr(tok, '*');
+        long rep = 1; char *star = strchr(tok, '*'); char *hat = strchr(tok, '^'); char *shared = NULL;
         if (star) { rep = atol(tok); tok = star + 1; }
-        for (long i = 0; i < rep; i++) { if (n + 2 > cap) v = realloc(v, (cap *= 2) * sizeof *v); v[n++] = mkstr(tok); }
+        else if (hat) { rep = atol(tok); tok = hat + 1; shared = mkstr(tok); }      /* N^spec: N entries that all point at ONE string */
+        for (long i = 0; i < rep; i++) { if (n + 2 > cap) v = realloc(v, (cap *= 2) * sizeof *v); v[n++] = shared ? shared : mkstr(tok); }
     }
     v[n] = NULL; *nout = (long)n; free(dup);
     return v;
@@ -133,9 +134,9 @@ static uint64_t vec_fnv(char *const v[]) { /* content hash incl. lengths */
     uint64_t h = 77; for (long i = 0; v[i]; i++) { h = h * 1000003 ^ fnv(v[i], strlen(v[i]) + 1); } return h;
 }
 static long vec_len(char *const v[]) { if (!v) return -1; long n = 0; while (v[n]) n++; return n; }
-static char **vec_copy(char *const v[]) { if (!v) return NULL; long n = vec_len(v); char **c = malloc((n + 1) * sizeof *c); for (long i = 0; i < n; i++) c[i] = strdup(v[i]); c[n] = NULL; return c; }
-static int vec_eq(char *const a[], char *const b[]) { if (!a || !b) return a == b; long i = 0; for (; a[i] && b[i]; i++) if (strcmp(a[i], b[i])) return 0; return a[i] == b[i]; }
-static void vec_free(char **v) { if (!v) return; for (long i = 0; v[i]; i++) free(v[i]); free(v); }
+static char **vec_copy(char *const v[]) { if (!v) return NULL; long n = vec_len(v); char **c = malloc((n + 1) * sizeof *c); for (long i = 0; i < n; i++) c[i] = (i > 0 && v[i] == v[i - 1]) ? c[i - 1] : strdup(v[i]); c[n] = NULL; return c; }
+static int vec_eq(char *const a[], char *const b[]) { if (!a || !b) return a == b; long i = 0; for (; a[i] && b[i]; i++) { if (i > 0 && a[i] == a[i - 1] && b[i] == b[i - 1]) continue; if (strcmp(a[i], b[i])) return 0; } return a[i] == b[i]; }
+static void vec_free(char **v) { if (!v) return; for (long i = 0; v[i]; i++) if (!(v[i + 1] && v[i + 1] == v[i])) free(v[i]); free(v); }   /* (runs of one shared string are freed once) */
 
 /* ------------------------------------------------------------------ sinks */
 struct acc { unsigned char *p; size_t n, cap; long recs; };
@@ -244,6 +245,7 @@ static void digest_body(const char *tag) {
     { char c[PATH_MAX + 1]; if (!getcwd(c, sizeof c)) strcpy(c, "?"); out(",\"cwd\":\"%016llx\"", (unsigned long long)fnv(c, strlen(c))); }
     { mode_t m = umask(0); umask(m); out(",\"umask\":%d", (int)m); }
     { sigset_t s; sigprocmask(SIG_SETMASK, NULL, &s); out(",\"sigmask\":\""); for (int i = 1; i < 65; i++) if (sigismember(&s, i) == 1) out("%d.", i); out("\""); }
+    { sigset_t s; sigpending(&s); out(",\"sigpending\":\""); for (int i = 1; i < 65; i++) if (sigismember(&s, i) == 1) out("%d.", i); out("\""); }
     { out(",\"sigact\":\""); for (int i = 1; i < 65; i++) { struct sigaction sa; if (sigaction(i, NULL, &sa) == 0 && (sa.sa_handler != SIG_DFL || sa.sa_flags)) out("%d=%lx/%x.", i, (unsigned long)sa.sa_handler, sa.sa_flags); } out("\""); }
 #ifdef VERIF_HEAPTRACK
     out(",\"heap_live\":%ld,\"heap_bytes\":%ld", ht_live, ht_bytes);
@@ -409,6 +411,7 @@ int main(int argc, char **argv) {
         else if (!strcmp(tok[0], "digest")) digest(nt > 1 ? tok[1] : "");
         else if (!strcmp(tok[0], "umask")) umask(strtol(tok[1], NULL, 8));
         else if (!strcmp(tok[0], "sigmask")) { sigset_t s; sigemptyset(&s); sigaddset(&s, atoi(tok[1])); sigprocmask(SIG_BLOCK, &s, NULL); }
+        else if (!strcmp(tok[0], "raise")) { kill(getpid(), atoi(tok[1])); }      /* meant for a blocked signal: it stays pending */
         else if (!strcmp(tok[0], "sighandler")) { struct sigaction sa; memset(&sa, 0, sizeof sa); sa.sa_handler = handler_dummy; sigaction(atoi(tok[1]), &sa, NULL); }
         else if (!strcmp(tok[0], "openfds")) { /* occupy N descriptors (close-on-exec), so that whatever the library opens gets a number above N */
             struct rlimit rl; getrlimit(RLIMIT_NOFILE, &rl); if (rl.rlim_cur < (rlim_t)atol(tok[1]) + 64) { rl.rlim_cur = (rlim_t)atol(tok[1]) + 64; if (rl.rlim_max < rl.rlim_cur) rl.rlim_max = rl.rlim_cur; setrlimit(RLIMIT_NOFILE, &rl); }
